@@ -373,3 +373,8 @@ impl Prop for C15 {
     }
   }
 }
+
+/// used by the `json` fuzz target: does an independent parser accept the document?
+pub fn independent_parse_ok(j: &str) -> Result<(), ()> {
+  serde_json::from_str::<serde_json::Value>(j).map(|_| ()).map_err(|_| ())
+}
